@@ -69,6 +69,9 @@ func unmapActorProperties(mm map[string][]byte, a *Actor) error {
 		}
 	}
 	if raw, ok := mm["endpoints"]; ok {
+		if a.Endpoints == nil {
+			a.Endpoints = new(Endpoints)
+		}
 		if err = a.Endpoints.GobDecode(raw); err != nil {
 			return err
 		}
